@@ -366,9 +366,43 @@ def handleLzDec (a : Args) : String :=
 /-- `twin.extend buf=<hex> rp=<n> cl=<n> dist=<n> limit=<n>`: `lz::extend_match` as modelled in `Model/Twins.lean`
     with the constants regenerated from the source (`TwinGen.params`): the optimized twin's result; `mismatch` if the
     portable twin (when it does not panic) says something else.
-    `twin.norm off=<u32> vals=<u32,...>`: `LZEncoder::normalize` (i32 values passed as their u32 bit patterns). -/
+    `twin.norm off=<u32> vals=<u32,...>`: `LZEncoder::normalize` (i32 values passed as their u32 bit patterns).
+    `twin.reject buf=<hex> [zeros=<n>] rp=<n> dist=<n> limit=<n> [twin=portable] [lim=1]`:
+    `LZEncoderData::get_match_len_fast_reject(dist, limit)` on the window `0^zeros ++ buf` with `read_pos = rp`:
+    `ok <len>` of the optimized twin (`mismatch` if the portable twin does not panic and says something else), with
+    `lim=1` followed by `buf_limit_u16`; `twin=portable`: `ok <len>` / `panic` of the portable twin.
+    `twin.direct buf=<hex> pos=<n> range=<u32> code=<u32> count=<n> [twin=portable]`: `decode_direct_bits(count)` from
+    the explicit state: `ok <result> <range> <code> <pos>` of the default build's dispatch (assembly model when the
+    guard admits it; `mismatch` if the portable loop differs although `2^16 ≤ range`), `twin=portable`: the portable
+    loop. -/
 def handleTwin (cmd : String) (a : Args) : String :=
   match cmd with
+  | "twin.reject" =>
+    (match a.bytes? "buf", a.nat? "rp", a.nat? "dist", a.nat? "limit" with
+     | some tail, some rp, some dist, some limit =>
+       let buf := List.replicate ((a.nat? "zeros").getD 0) 0 ++ tail
+       let q := Twins.matchLenFastRejectPortable TwinGen.params buf rp dist limit
+       if a.get? "twin" == some "portable" then
+         (match q with | some v => s!"ok {v}" | none => "panic")
+       else
+         let o := (Twins.matchLenFastRejectOptT TwinGen.params buf rp dist limit).1
+         let sfx := if a.nat? "lim" == some 1 then s!" {Twins.bufLimitU16 TwinGen.params buf.length}" else ""
+         (match q with
+          | some v => if v == o then s!"ok {o}{sfx}" else s!"mismatch {o} {v}"
+          | none => s!"ok {o}{sfx}")
+     | _, _, _, _ => "bad-op")
+  | "twin.direct" =>
+    (match a.bytes? "buf", a.nat? "pos", a.nat? "range", a.nat? "code", a.nat? "count" with
+     | some buf, some pos, some range, some code, some count =>
+       let s0 : Twins.DState := ⟨range, code, pos, 0⟩
+       let fmt (t : Twins.DState) : String := s!"{t.result} {t.range} {t.code} {t.pos}"
+       let q := Twins.directPortable TwinGen.params buf (Twins.directFuel count) count s0
+       if a.get? "twin" == some "portable" then s!"ok {fmt q}"
+       else
+         let o := Twins.directBitsOpt TwinGen.params buf count s0
+         if 65536 ≤ range && range < 4294967296 && code < 4294967296 && o != q then s!"mismatch {fmt o} / {fmt q}"
+         else s!"ok {fmt o}"
+     | _, _, _, _, _ => "bad-op")
   | "twin.extend" =>
     (match a.bytes? "buf", a.nat? "rp", a.nat? "cl", a.nat? "dist", a.nat? "limit" with
      | some buf, some rp, some cl, some dist, some limit =>
@@ -391,7 +425,7 @@ def handleTwin (cmd : String) (a : Args) : String :=
 
 def handle (cmd : String) (a : Args) : String :=
   match cmd with
-  | "twin.extend" | "twin.norm" => handleTwin cmd a
+  | "twin.extend" | "twin.norm" | "twin.reject" | "twin.direct" => handleTwin cmd a
   | "encfast.parse" | "lzma.parse" => handleEncFast cmd a
   | "mf.trace" => if a.get? "kind" == some "bt4" then handleMfBt4 a else handleMfTraceHc4 a
   | "lzdec.run" => handleLzDec a
